@@ -55,7 +55,10 @@ func derivedTargets(s *TS, depth int) []*TS {
 			out = append(out, tMap(e))
 		}
 		out = append(out, tObj(at("k1", s.Elem)), tObj(at("k1", s.Elem), at("k2", s.Elem)), tObj(at("k1", s.Elem), ato("zz", s.Elem)),
-			tObj(at("k1", tsDyn)), tObj(), tList(s.Elem))
+			tObj(at("k1", tsDyn)), tObj(), tList(s.Elem),
+			// optional attributes the map may lack, with optional attributes nested inside
+			tObj(at("k1", s.Elem), ato("zz", tObj(ato("q", tsNum)))), tObj(ato("k1", s.Elem), ato("zz", tList(tObj(ato("q", s.Elem))))),
+			tObj(at("k1", s.Elem), ato("zz", tMap(tObj(at("p", tsStr), ato("q", tsBool))))))
 	case 'T':
 		out = append(out, tList(tsDyn), tSet(tsDyn), tList(tsStr), tSet(tsStr), tList(tsNum))
 		if len(s.Elems) > 0 {
@@ -77,13 +80,20 @@ func derivedTargets(s *TS, depth int) []*TS {
 		out = append(out, tMap(tsDyn), tMap(tsStr), tMap(tsNum))
 		if len(s.Attrs) > 0 {
 			out = append(out, tMap(s.Attrs[0].T))
-			// drop one attribute / make it optional
+			// drop one attribute / make it optional / optional with another leaf type
 			for i := range s.Attrs {
 				as := append(append([]TAttr(nil), s.Attrs[:i]...), s.Attrs[i+1:]...)
 				out = append(out, tObj(as...))
 				opt := append([]TAttr(nil), s.Attrs...)
 				opt[i].Opt = true
 				out = append(out, tObj(opt...))
+				for _, l := range leafAlts {
+					if l.K != s.Attrs[i].T.K {
+						o2 := append([]TAttr(nil), s.Attrs...)
+						o2[i] = TAttr{Name: s.Attrs[i].Name, T: l, Opt: true}
+						out = append(out, tObj(o2...))
+					}
+				}
 			}
 		}
 		// added attributes: required, optional, optional with nested optional
@@ -194,7 +204,73 @@ func unresolved(s, r *TS) bool {
 	return false
 }
 
+// c08FromPlaceholder: a conversion looked up for a source type that still
+// has placeholders is later applied to values of concrete types (known,
+// null, unknown, refined, marked); it must agree with Convert on the same
+// pair.
+func c08FromPlaceholder(c *Ctx) {
+	srcCons := []*TS{tsDyn, tList(tsDyn), tMap(tsDyn), tTuple(tsDyn), tObj(at("a", tsDyn)), tObj(at("a", tsStr), at("b", tMap(tsDyn)))}
+	targets := []*TS{tList(tsDyn), tSet(tsDyn), tMap(tsDyn), tList(tsStr), tObj(at("a", tsDyn)), tObj(at("a", tsStr), at("b", tMap(tsDyn))), tTuple(tsDyn), tList(tList(tsDyn)), tsDyn, tsStr, tObj(at("a", tsStr), ato("b", tMap(tsDyn)))}
+	pool := structPool(false)
+	for _, sc := range srcCons {
+		sc := sc
+		for _, t := range targets {
+			t := t
+			c.Unit(func(u *U) {
+				sty, tty := sc.Build(), t.Build()
+				for _, get := range []struct {
+					n string
+					f func(cty.Type, cty.Type) convert.Conversion
+				}{{"GetConversion", convert.GetConversion}, {"GetConversionUnsafe", convert.GetConversionUnsafe}} {
+					var conv convert.Conversion
+					if _, _, p := callConv(func() (cty.Value, error) { conv = get.f(sty, tty); return cty.NilVal, nil }); p != "" {
+						u.Violation("convert.lookup-panics", sc.Canon()+" -> "+t.Canon(), fmt.Sprintf("%s(%#v, %#v) panicked: %s", get.n, sty, tty, p))
+						continue
+					}
+					if conv == nil {
+						continue
+					}
+					for _, v := range pool {
+						if !refConforms(tsOf(v.Type()), sc) {
+							continue
+						}
+						ty := v.Type()
+						variants := []cty.Value{v, cty.NullVal(ty), cty.UnknownVal(ty), v.Mark(markM1), cty.NullVal(ty).Mark(markM2)}
+						if w, ok := safeRefine(func() cty.Value { return cty.UnknownVal(ty).RefineNotNull() }); ok {
+							variants = append(variants, w)
+						}
+						for _, x := range variants {
+							u.Eval(1)
+							u.Distinct("ph" + get.n + sc.Canon() + t.Canon() + goStr(x))
+							r1, e1, p1 := callConv(func() (cty.Value, error) { return conv(x) })
+							r2, e2, p2 := callConv(func() (cty.Value, error) { return convert.Convert(x, tty) })
+							desc := fmt.Sprintf("%s(%s, %s) applied to %s", get.n, sc.Canon(), t.Canon(), goStr(x))
+							shape := sc.Canon() + " -> " + t.Canon() + " | " + shapeOf(x)
+							switch {
+							case p1 != "":
+								u.Violation("convert.placeholder-conv-panics", shape, fmt.Sprintf("%s panicked: %s", desc, firstLineOf(p1)))
+							case p2 != "" || e2 != nil:
+								// Convert refuses this value: the looked-up conversion may too
+							case e1 != nil:
+								u.Violation("convert.placeholder-conv-differs", shape, fmt.Sprintf("%s failed (%v) although Convert(%s, %s) = %s", desc, e1, goStr(x), t.Canon(), goStr(r2)))
+							case !semEq(r1, r2):
+								u.Violation("convert.placeholder-conv-differs", shape, fmt.Sprintf("%s = %s, but Convert on the same pair = %s", desc, goStr(r1), goStr(r2)))
+							default:
+								if why := wf(r1); why != "" {
+									u.Violation("convert.malformed", shape, fmt.Sprintf("%s = %s is malformed: %s", desc, goStr(r1), why))
+								}
+								u.Class("placeholder-conv-agrees")
+							}
+						}
+					}
+				}
+			})
+		}
+	}
+}
+
 func runC08(c *Ctx) {
+	c08FromPlaceholder(c)
 	srcs := c08SourceTypes(c.Thorough)
 	c.Note("source_types", fmt.Sprint(len(srcs)))
 	for _, s := range srcs {
